@@ -466,7 +466,8 @@ def shrink(case):
 def extra_coverage(tier):
     cov = {"theorem_space": "C19_mode_exact(_any_repairs): all mode strings (2304 valid local flag records x 70 consistent "
                             "fact records x 8 combinations of repairs, evaluated completely by vm_compute); C19_cwd_restored / C19_relative_follows_config: all "
-                            "config trees of any depth (structural induction)"}
+                            "config trees of any depth over all file sets, all tables of symbolic links and all answers of os.chdir "
+                            "(structural induction)"}
     if not CAN_DROP:
         cov["unexplored"] = ("not started as root: cannot drop to uid nobody, so all permission-bit rows were run as the "
                              "invoking user only")
